@@ -119,12 +119,21 @@ def run(spec):
                                         (market.FullCode, k, float(V(k, msup)), float(V(k, mdem))))
                     alloc = Fraction(0)
                     for sup in suppliers:
-                        assigned_name = market.GetVariableName('SUP_' + sup.FullCode)
+                        try:
+                            assigned_name = market.GetVariableName('SUP_' + sup.FullCode)
+                        except KeyError:
+                            raise Violation('C04/supplier-assignment-missing', 'market %s assigns nothing to its declared supplier '
+                                                                               '%s (no variable SUP_%s)' %
+                                            (market.FullCode, sup.FullCode, sup.FullCode))
                         a = V(k, assigned_name)
                         alloc += a
                         own_local = 'SUP_' + market.Code if sup.Parent is market.Parent else \
                             'SUP_%s_%s' % (market.Parent.Code, market.Code)
-                        own = sup.GetVariableName(own_local)
+                        try:
+                            own = sup.GetVariableName(own_local)
+                        except KeyError:
+                            raise Violation('C04/supplier-assignment-missing', 'supplier %s of market %s has no supply variable %s' %
+                                            (sup.FullCode, market.FullCode, own_local))
                         cross = xr(k, market.CurrencyZone.Currency) / xr(k, sup.CurrencyZone.Currency)
                         if V(k, own) != a * cross:
                             raise Violation('C04/supplier-amount', 'market %s period %d: %s = %s but the market assigns %s (x rate %s)' %
